@@ -1264,6 +1264,7 @@ DISPATCH_EXPORT uint32_t _dispatch_verif_heap_count(void *h);
 DISPATCH_EXPORT void *_dispatch_verif_heap_slot(void *h, uint32_t idx);
 DISPATCH_EXPORT uint32_t _dispatch_verif_heap_record_entry(void *r, uint32_t heap_id);
 DISPATCH_EXPORT uint64_t _dispatch_verif_heap_record_key(void *r, uint32_t heap_id);
+DISPATCH_EXPORT uint32_t _dispatch_verif_heap_take_needs_program(void *h);
 
 void *_dispatch_verif_heap_create(void) { return _dispatch_calloc(1, sizeof(struct _dispatch_verif_heap_s)); }
 void _dispatch_verif_heap_destroy(void *h) { _dispatch_verif_heap_t vh = h; while (vh->dth.dth_segments) _dispatch_timer_heap_shrink(&vh->dth); free(vh); }
@@ -1286,4 +1287,6 @@ uint32_t _dispatch_verif_heap_count(void *h) { return ((_dispatch_verif_heap_t)h
 void *_dispatch_verif_heap_slot(void *h, uint32_t idx) { return *_dispatch_timer_heap_get_slot(&((_dispatch_verif_heap_t)h)->dth, idx); }
 uint32_t _dispatch_verif_heap_record_entry(void *r, uint32_t heap_id) { return ((dispatch_timer_source_refs_t)r)->dt_heap_entry[heap_id]; }
 uint64_t _dispatch_verif_heap_record_key(void *r, uint32_t heap_id) { return ((dispatch_timer_source_refs_t)r)->dt_timer.heap_key[heap_id]; }
+// reads and clears the "the kernel timer must be re-programmed" flag of the heap
+uint32_t _dispatch_verif_heap_take_needs_program(void *h) { _dispatch_verif_heap_t vh = h; uint32_t v = vh->dth.dth_needs_program; vh->dth.dth_needs_program = false; return v; }
 #endif // DISPATCH_VERIF
